@@ -60,8 +60,13 @@ def worker_main(argv: list[str]) -> int:
         resource.setrlimit(resource.RLIMIT_AS, (lim, lim))
     except (ValueError, OSError):
         pass
+    # imports (torch alone takes seconds, minutes on a loaded machine) are not part of any run:
+    # they get their own generous limit, the per-run limit only covers generate + execute
+    faulthandler.dump_traceback_later(1800, exit=True)
     from . import engine, shrink
 
+    engine.warmup()
+    faulthandler.cancel_dump_traceback_later()
     known = load_known()
     out = sys.stdout
     t0 = time.monotonic()
